@@ -208,6 +208,8 @@ def make_case(rng, kind, nind, inputs, lengths, distinct=True, form=None, pos_mo
         pos_mode = rng.choice([m for m in POS_MODES if m != 'shaped'])
     case['data'] = gen_data(rng, nsrc, runs_vertex_labels, pos_mode, dents)
     case['instances'], case['order'] = gen_instances(rng)
+    forms = ['getitem', 'getitem_rev', 'iter', 'method', 'shapes', 'zip', 'stream']
+    case['access'] = {'poly': rng.choice(forms), 'tri': rng.choice(forms)}
     if kind == 'polylist':
         case['vcounts'] = list(lengths)
         case['ps'] = [labels]
@@ -494,6 +496,7 @@ def run(ctx):
     nondistinct = 0
     pmodes = {}
     ninst = {}
+    aforms = {}
     unsorted_sets = 0
     for c, r in zip(cases, results):
         if c['kind'] == 'slice':
@@ -509,6 +512,8 @@ def run(ctx):
         nondistinct += 0 if c.get('distinct', True) else 1
         t = sum(max(n - 2, 0) for n in lens)
         ntri += t
+        af = (c.get('access') or {}).get('poly', 'getitem')
+        aforms[af] = aforms.get(af, 0) + 1
         ninst[len(c.get('instances') or [1])] = ninst.get(len(c.get('instances') or [1]), 0) + 1
         pmodes[c.get('data', {}).get('pos_mode', 'default')] = pmodes.get(c.get('data', {}).get('pos_mode', 'default'), 0) + 1
         sets = [st for s_, o, st in c['inputs'] if s_ == 'TEXCOORD']
@@ -523,6 +528,7 @@ def run(ctx):
                 'kinds tristrips/trifans/polylist/polygons in equal shares, 1..9 runs of lengths 0..12 (0, 1, 2 frequent), '
                 'strides 1..4 with 1..7 inputs (VERTEX, <=2 NORMAL, <=3 TEXCOORD with arbitrary set numbers, COLOR) at arbitrary (also shared) offsets in arbitrary document order, '
                 '1..4 scene instances of the geometry (integer matrices, same / different / no material binding) triangulated in random order relative to each other and to the unbound primitive, '
+                'polygons / triangles obtained by prim[i] (ascending, descending), legacy iteration, polygons()/triangles(), shapes(), two generators in lockstep (all materialised before use) or streamed, '
                 'source data varied per case (collinear, planar grid, tilted plane, space, few coincident points, all zero, infinities, outlines with reflex corners / self-intersections), '
                 'pairwise distinct labels in 85 % of the cases; non-trivial = at least one triangle expected; '
                 'distinct = different (kind, stride, inputs, length vector); plus a fixed list of boundary shapes '
@@ -532,7 +538,7 @@ def run(ctx):
                     for c, r in list(zip(cases, results))[ncorpus + len(bnd):ncorpus + len(bnd) + 3]],
         'distribution': {'by_kind': by_kind, 'by_stride': by_stride, 'runs_per_primitive': nruns,
                          'run_length_histogram': runlen, 'empty_p_spelling': forms, 'triangles_expected': ntri,
-                         'cases_with_repeated_labels': nondistinct, 'position_data_mode': pmodes, 'scene_instances_per_case': ninst,
+                         'cases_with_repeated_labels': nondistinct, 'position_data_mode': pmodes, 'scene_instances_per_case': ninst, 'polygon_access_form': aforms,
                          'cases_with_texcoord_sets_listed_out_of_order': unsorted_sets, 'runtime_slice_cases': nslice,
                          'boundary_cases': len(bnd), 'corpus_cases': ncorpus, 'exhaustive_slice_cases': nexh},
         'mismatches': mismatches,
